@@ -505,3 +505,64 @@ async fn fee_transaction_pays_solver_and_routers() {
         if round == 0 { assert!(paid > 0, "scenario must exercise the payout"); }
     }
 }
+
+/// C08 (third sentence, block by block): when the parent carries no golden ticket, the grandparent is paid too — its
+/// routing share must go to a node that routed in the grandparent, the parent's to one that routed in the parent
+#[tokio::test]
+#[serial_test::serial]
+async fn second_router_is_taken_from_the_grandparent() {
+    use crate::core::util::crypto::generate_keys;
+    let mut t = TestManager::default();
+    t.initialize(20, 1_000_000_000).await;
+    let heartbeat = { t.config_lock.read().await.get_consensus_config().unwrap().heartbeat_interval };
+    let (public_key, private_key) = { let w = t.wallet_lock.read().await; (w.public_key, w.private_key) };
+    let mut parent = t.get_latest_block().await;
+    let mut routers = vec![];
+    let mut fees = vec![];
+    // blocks 2 and 3: each produced by a fresh key that is the only router of the block's one fee-paying transaction
+    for k in 0..2u64 {
+        let (rk, rs) = generate_keys();
+        let b = {
+            let configs = t.config_lock.read().await;
+            let gp = configs.get_consensus_config().unwrap().genesis_period;
+            let latest = { t.blockchain_lock.read().await.blockring.get_latest_block_id() };
+            let mut tx = { let mut w = t.wallet_lock.write().await; Transaction::create(&mut w, public_key, 1_000, 100_000 + 7 * k, false, None, latest, gp).unwrap() };
+            tx.sign(&private_key);
+            tx.add_hop(&private_key, &public_key, &rk);
+            tx.generate(&rk, 0, 0);
+            let mut txs: AHashMap<SaitoSignature, Transaction> = Default::default();
+            txs.insert(tx.signature, tx);
+            let bc = t.blockchain_lock.read().await;
+            let mut b = Block::create(&mut txs, parent.hash, std::ops::Deref::deref(&bc), parent.timestamp + 10 * heartbeat, &rk, &rs, None, std::ops::Deref::deref(&configs), &t.storage).await.unwrap();
+            b.generate().unwrap(); b.sign(&rs);
+            b
+        };
+        routers.push(rk); fees.push(b.total_fees);
+        let r = t.add_block(b.clone()).await;
+        assert!(matches!(r, AddBlockResult::BlockAddedSuccessfully(..)), "set-up block {} must be accepted: {:?}", k + 2, r);
+        parent = b;
+    }
+    // block 4: golden ticket for block 3, built as Mempool::bundle_block does
+    let block4 = {
+        let difficulty = { t.blockchain_lock.read().await.get_block(&parent.hash).unwrap().difficulty };
+        let gt = TestManager::create_golden_ticket(t.wallet_lock.clone(), parent.hash, difficulty).await;
+        let mut gttx = crate::core::consensus::wallet::Wallet::create_golden_ticket_transaction(gt, &public_key, &private_key).await;
+        gttx.generate(&public_key, 0, 0);
+        let configs = t.config_lock.read().await;
+        let mut txs: AHashMap<SaitoSignature, Transaction> = Default::default();
+        let bc = t.blockchain_lock.read().await;
+        let mut b = Block::create(&mut txs, parent.hash, std::ops::Deref::deref(&bc), parent.timestamp + 10 * heartbeat, &public_key, &private_key, Some(gttx), std::ops::Deref::deref(&configs), &t.storage).await.unwrap();
+        b.generate().unwrap(); b.sign(&private_key);
+        b
+    };
+    let fee_tx = block4.transactions.iter().find(|tx| tx.transaction_type == TransactionType::Fee).expect("block 4 carries a fee transaction");
+    let router_slips: Vec<&Slip> = fee_tx.to.iter().filter(|s| s.slip_type == SlipType::RouterOutput).collect();
+    assert_eq!(router_slips.len(), 2, "both the parent and the unpaid grandparent have a routing share");
+    // the first routing share is the parent's (block 3), the second the grandparent's (block 2)
+    if router_slips[0].public_key != routers[1] || router_slips[0].amount > fees[1] { witness(format!("the parent's routing share ({} of {} collected) does not go to the node that routed in the parent", router_slips[0].amount, fees[1])); }
+    if router_slips[1].public_key != routers[0] {
+        witness(format!("the grandparent's routing share ({} nolan) goes to {} — a node that routed nothing in the grandparent (block 2 was routed by another key; block 3's router is paid twice)",
+            router_slips[1].amount, if router_slips[1].public_key == routers[1] { "the parent's router" } else { "an unrelated key" }));
+    }
+    if router_slips[1].amount > fees[0] { witness(format!("the grandparent's routing share {} exceeds the fees it collected {}", router_slips[1].amount, fees[0])); }
+}
